@@ -71,6 +71,10 @@ EXPLANATION += (
     ' Round 6: the gene list is applied whenever one is given, an empty list included (R-PROV/gene-list/whenever-given).'
 )
 
+EXPLANATION += (
+    ' Round 7: both marker workers write an entry for every pair index of their run (R-COVER/every-pair-recorded).'
+)
+
 RULE_TEXT = (
     "one obligation per arithmetic relation (quotient, multiplier, "
     "comparison operator, conjunction operand) and per guard; polynomial "
@@ -99,6 +103,7 @@ def check(ctx):
     check_penetrance(ctx)
     check_gene_list(ctx)
     check_transposed_tables(ctx)
+    check_every_pair_recorded(ctx)
     from ..rules.forwarding import check_forwarding
     check_forwarding(ctx, {
         'p_th', 'q1_th', 'qdiff_th', 'log2_fold_th', 'q1_min_th',
@@ -1382,3 +1387,71 @@ def check_transposed_tables(ctx):
                'the gene-major table is added before the file is '
                'published' if ok else
                f'{f2.name} does not add the gene-major table')
+
+
+def check_every_pair_recorded(ctx):
+    """a marker worker is handed a run of consecutive pair indices and
+    writes one up list and one down list per index; the merge places the
+    lists by position.  Every index of the run therefore gets its entry
+    in both tables, pairs without markers an empty one: an index that is
+    passed over shifts the lists of all later pairs of the chunk onto
+    their neighbours."""
+    from ..rules import coverage as CV
+    db = ctx.db
+    rule = 'R-COVER/every-pair-recorded'
+    wr = db.fn('diff_exp.markers:_write_to_tmp_file')
+    for q in ('diff_exp.markers:_find_markers_worker',
+              'diff_exp.p_value_markers:_find_markers_from_p_mask_worker'):
+        fi, cfg, rd, ex = _fn(ctx, q)
+        names = {}
+        for n in cfg.nodes:
+            if n.id not in rd.live:
+                continue
+            for c in cfg.calls_in(n):
+                if resolve_callee(db, fi, c) is wr:
+                    mapping, _ = bind_args(wr, c)
+                    for k in ('up_reg_lookup', 'down_reg_lookup'):
+                        a = mapping.get(k)
+                        if isinstance(a, ast.Name):
+                            names[k] = a.id
+        if len(names) != 2:
+            ctx.fail(rule, f'{fi.name}:tables', fi.loc(),
+                     'the up / down tables handed to _write_to_tmp_file '
+                     'were not recognised')
+            continue
+        for k, nm in sorted(names.items()):
+            stores = [st for st in ast.walk(fi.node)
+                      if isinstance(st, ast.Assign) and isinstance(
+                          st.targets[0], ast.Subscript) and isinstance(
+                              st.targets[0].value, ast.Name)
+                      and st.targets[0].value.id == nm]
+            if not stores:
+                ctx.fail(rule, f'{fi.name}:{k}', fi.loc(),
+                         f'no store into the {k} table found')
+                continue
+            st = stores[0]
+            loop = CV.innermost_loop(st)
+            if loop is None:
+                ctx.fail(rule, f'{fi.name}:{k}', fi.loc(st),
+                         'the table is not filled in a loop over the pair '
+                         'indices')
+                continue
+            # keyed by the loop's own item
+            keyed = isinstance(st.targets[0].slice, ast.Name) and any(
+                isinstance(x, ast.Name)
+                and x.id == st.targets[0].slice.id
+                for x in ast.walk(loop.target))
+
+            def act(node, _st=st):
+                return node.ast is _st
+            CV.check_cover(
+                ctx, fi, rule, f'{fi.name}:{k}', loop, act,
+                what='pair index',
+                consequence=f'no entry is written for it in {k}: the '
+                'lists of the later pairs of the chunk are merged one '
+                'position too early')
+            ctx.ob(rule, f'{fi.name}:{k}:keyed', fi.loc(st), keyed,
+                   'the entry is keyed by the pair index of the turn'
+                   if keyed else
+                   f'`{unparse(st)[:60]}` is not keyed by the loop\'s own '
+                   'pair index')
